@@ -8,12 +8,12 @@ import (
 	"testing"
 
 	"github.com/go-logr/logr"
+	autoscalingv1 "k8s.io/api/autoscaling/v1"
 	corev1 "k8s.io/api/core/v1"
 	apiequality "k8s.io/apimachinery/pkg/api/equality"
 	"k8s.io/apimachinery/pkg/api/resource"
 	metav1 "k8s.io/apimachinery/pkg/apis/meta/v1"
 	"k8s.io/apimachinery/pkg/util/intstr"
-	autoscalingv1 "k8s.io/api/autoscaling/v1"
 	"pgregory.net/rapid"
 
 	edsv1 "github.com/DataDog/extendeddaemonset/api/v1alpha1"
